@@ -7,7 +7,7 @@
                        pulse and every t in [0, total) the program plays  at_ pcs c t  (half-open junctions). *)
 From Coq Require Import ZArith QArith List Bool.
 Require Import QV.C01.Model QV.C01.Spec QV.C01.Proofs QV.C01.ProofsDefs QV.C01.Proofs_trafo QV.C01.Proofs_table
-        QV.C01.Proofs_comp QV.C01.Proofs_atoms QV.C01.Proofs_main QV.C01.Proofs_sampling QV.C01.Proofs_leaves QV.C01.Proofs_atoms2 QV.C01.Proofs_chans QV.C01.Proofs_builder QV.C01.Proofs_dec QV.C01.Proofs_arith QV.C01.Proofs_r5.
+        QV.C01.Proofs_comp QV.C01.Proofs_atoms QV.C01.Proofs_main QV.C01.Proofs_sampling QV.C01.Proofs_leaves QV.C01.Proofs_atoms2 QV.C01.Proofs_chans QV.C01.Proofs_builder QV.C01.Proofs_dec QV.C01.Proofs_arith QV.C01.Proofs_r5 QV.C01.Proofs_r6.
 Import ListNotations.
 Open Scope Q_scope.
 
@@ -400,3 +400,51 @@ Proof.
     + apply Hplay; auto.
 Qed.
 Print Assumptions C01_sampled_denotes_partial.
+
+(* ---- round 6: "no sample is NaN".  The DENOTATION is defined at every time of [0, total) on every channel all its pieces
+        carry (Spec level; induction on the tree, every node and atom kind), and with C01_denotes the program built by the
+        model plays a number there.  C01_denotation_total has NO guard; C01_no_nan has the guards of C01_denotes (through which
+        the program is tied to the denotation) and, like C01_denotes, speaks about channels that every piece carries ---- *)
+Theorem C01_denotation_total : forall p rho cm pcs c t,
+  denote p rho cm = Ok pcs -> Forall (fun q => cmem c (pchans q) = true) pcs ->
+  0 <= t -> t < total pcs -> exists v, at_ pcs c t = Some v.
+Proof. exact denotation_total. Qed.
+Print Assumptions C01_denotation_total.
+
+Theorem C01_no_nan : forall p env cm prog,
+  guard_C01_par_order false p = true -> guard_C01_tables p (SDict env) (cm_of cm) = true ->
+  create_program p env cm None = Ok (Some prog) ->
+  exists pcs, denote_top p env cm = Ok pcs /\
+    forall c t, Forall (fun q => cmem c (pchans q) = true) pcs -> 0 <= t -> t < loop_dur prog ->
+                exists v, play prog c t = Some v /\ oeq (Some v) (at_ pcs c t).
+Proof. exact no_nan. Qed.
+Print Assumptions C01_no_nan.
+
+Example C01_no_nan_nonvacuous :
+  let p := PFor 1%N (EC 0) (EC 2) (EC 1)
+             (PArith false SSub (inl (EC 2))
+                (PArith true SMul (inr [(ChS 1, EC (1 # 2))])
+                   (PSeq [PRev (PAtom (ATable [(ChS 1, [(EC 0, EV 1%N, Hold); (EC 1, EC 1, Linear); (EC 1, EC 2, Jump)]);
+                                                (ChI 0, [(EC (1 # 2), EC 1, Hold)])]));
+                          PAtom (APoint [(EC 0, [EC 1; EC 0], Hold); (EC (3 # 2), [EV 1%N; EC 1], Linear)] [ChS 1; ChI 0]);
+                          PAtom (AMulti [AArith (AConst (EC 1) [(ChS 1, EC 1)]) OpSub
+                                                (ATable [(ChS 1, [(EC 0, EC 0, Hold); (EC 1, EC 1, Linear)])]);
+                                         AConst (EC 1) [(ChI 0, EV 1%N)]])]))) in
+  guard_C01_par_order false p = true /\ guard_C01_tables p (SDict []) (cm_of []) = true /\
+  (exists prog, create_program p [] [] None = Ok (Some prog) /\ 0 < loop_dur prog) /\
+  match denote_top p [] [] with
+  | Ok pcs => forallb (fun q => cmem (ChS 1) (pchans q)) pcs = true /\ (length pcs = 6)%nat
+  | Err _ => False
+  end.
+Proof.
+  repeat split; try (vm_compute; reflexivity).
+  eexists. split; vm_compute; reflexivity.
+Qed.
+
+(* a zero-length linear entry never decides alone: the time-reversed table that ends in one denotes the value of the segment
+   before it at t = 0 (the code computes 0/0 there; that input is excluded by guard_C01_tables, not by the denotation) *)
+Example C01_denotation_total_zero_linear :
+  let p := PRev (PAtom (ATable [(ChS 1, [(EC 0, EC 0, Hold); (EC 1, EC 1, Hold); (EC 1, EC 2, Linear)])])) in
+  guard_C01_tables p (SDict []) (cm_of []) = false /\
+  match denote_top p [] [] with Ok pcs => at_ pcs (ChS 1) 0 = Some 0 /\ 0 < total pcs | Err _ => False end.
+Proof. split; [reflexivity|]. vm_compute. split; reflexivity. Qed.
